@@ -10,6 +10,7 @@ import sys
 from vp import env, world, forge, schema, xmlsec
 
 TMP = [None]
+HARNESS_TOOLS = os.path.normpath(os.path.join(os.path.dirname(os.path.abspath(__file__)), '..', '..', 'tools'))
 ET_MODULES = ('xml.etree.ElementTree', 'xml.etree.cElementTree', 'cElementTree', 'elementtree.ElementTree', 'elementtree')
 XML_MODULES = ET_MODULES + ('xml.etree.ElementTree', 'xml.etree.cElementTree', 'xml.dom.minidom', 'xml.dom.pulldom', 'xml.dom',
                'xml.sax', 'xml.parsers.expat', 'xml.etree', 'lxml', 'lxml.etree', 'lxml.objectify', 'xmltodict', 'xml')
@@ -180,7 +181,7 @@ def observe(fn, data):
             p = e[1]
             if CANARY_TEXT and 'canary' in p:
                 bad_ev.append(e)
-            elif p.startswith(('/tmp', '/dev/shm', '/var/tmp', TMP[0] or '/nonexistent')) or '/saml2_tophat' in p or p.startswith(('/venv', '/root/.pyenv', '/usr', '/etc/ssl', '/proc', '/sys', '/dev', '/verif/keys', '/verif/tools')) or p.isdigit():
+            elif p.startswith(('/tmp', '/dev/shm', '/var/tmp', TMP[0] or '/nonexistent')) or '/saml2_tophat' in p or p.startswith(('/venv', '/root/.pyenv', '/usr', '/etc/ssl', '/proc', '/sys', '/dev', world.KEYDIR, HARNESS_TOOLS)) or p.isdigit():
                 continue
             else:
                 bad_ev.append(e)
